@@ -26,7 +26,7 @@ ASSUMPTIONS = ['offline side is the real offline monitor (fresh object; an objec
                'every variable of the formula is supplied at every step']
 REAL = common.REAL_ALL
 STUBS = common.STUBS_ALL
-PROBES = ['same_name_twice', 'cohosted', 'buffer_longer_than_3', 'one_sample_trace', 'declared_unused_var']
+PROBES = ['integer_samples_above_2^53', 'same_name_twice', 'cohosted', 'buffer_longer_than_3', 'one_sample_trace', 'declared_unused_var']
 INTERLEAVING_MEASURE = 'distinct (co-hosted monitor schedule, per-step first-input permutation) patterns'
 STATE_MEASURE = 'distinct digests of the online operator memory (every operation object __dict__) after an update'
 
@@ -40,7 +40,7 @@ def gen(rng, tier):
     ast = sg.gen_formula(rng, cfg)
     text = 'out = ' + sg.to_text(ast, sg.Spelling(rng)) + ';'
     n = rng.choice([1, 2, 3, 4, 5, 6, 8, 10, 12, 14] + ([18, 24] if big else []))
-    data = world.gen_trace(rng, vars_, n)
+    data = world.gen_trace(rng, vars_, n, p_bigint=0.06)
     times, fired = world.faulty_clock(rng, n, kinds=[k for k in ('jitter_in', 'jitter_out', 'offset', 'float_stamps')
                                                       if rng.random() < 0.4])
     orders = []
@@ -73,6 +73,8 @@ def run(sc):
         r.discarded = True
         return r
     r.faults.update(sc.get('fired', {}))
+    if any(isinstance(x, int) and abs(x) > 2 ** 53 for v in data for x in data[v]):
+        r.probes['integer_samples_above_2^53'] += 1
     text = common.text_of(sc)
     declared = sc.get('declared', sc['vars'])
     surplus = [v for v in declared if v not in sc['vars']]
